@@ -4,16 +4,39 @@ package encoding
 
 import (
 	"bytes"
+	"io"
+
+	"github.com/lugu/qiloop/type/value"
 
 	"github.com/lugu/qiloop/internal/zzverif/sym"
 )
 
+type zzTrailingValue struct {
+	I int16
+	V value.Value
+}
+
 // C08Reflect: strict prefixes of the reflection encoder's output are refused by the reflection decoder.
 func C08Reflect() {
 	var enc []byte
-	var decode func(r *bytes.Reader) error
+	var decode func(r io.Reader) error
 	label := ""
-	switch sym.Choose("shape", 4) {
+	switch sym.Choose("shape", 6) {
+	case 4:
+		// a dynamic value as the LAST thing decoded (cut inside its body)
+		v := []value.Value{value.Long(sym.I64("l")), value.String(sym.Str("vs", 2))}
+		var buf bytes.Buffer
+		sym.Assert(NewEncoder(nil, &buf).Encode(v) == nil, "encode-ok")
+		enc = buf.Bytes()
+		decode = func(r io.Reader) error { var back []value.Value; return NewDecoder(nil, r).Decode(&back) }
+		label = "truncated-list-of-values"
+	case 5:
+		v := zzTrailingValue{I: sym.I16("i"), V: value.Uint(sym.U32("u"))}
+		var buf bytes.Buffer
+		sym.Assert(NewEncoder(nil, &buf).Encode(v) == nil, "encode-ok")
+		enc = buf.Bytes()
+		decode = func(r io.Reader) error { var back zzTrailingValue; return NewDecoder(nil, r).Decode(&back) }
+		label = "truncated-struct-with-trailing-value"
 	case 0:
 		var v zzMixed
 		v.I = sym.I32("i")
@@ -23,33 +46,38 @@ func C08Reflect() {
 		var buf bytes.Buffer
 		sym.Assert(NewEncoder(nil, &buf).Encode(v) == nil, "encode-ok")
 		enc = buf.Bytes()
-		decode = func(r *bytes.Reader) error { var back zzMixed; return NewDecoder(nil, r).Decode(&back) }
+		decode = func(r io.Reader) error { var back zzMixed; return NewDecoder(nil, r).Decode(&back) }
 		label = "truncated-struct"
 	case 1:
 		v := []string{sym.Str("a", 1), sym.Str("b", 2)}
 		var buf bytes.Buffer
 		sym.Assert(NewEncoder(nil, &buf).Encode(v) == nil, "encode-ok")
 		enc = buf.Bytes()
-		decode = func(r *bytes.Reader) error { var back []string; return NewDecoder(nil, r).Decode(&back) }
+		decode = func(r io.Reader) error { var back []string; return NewDecoder(nil, r).Decode(&back) }
 		label = "truncated-slice"
 	case 2:
 		v := map[string]uint32{sym.Str("k", 1): sym.U32("x")}
 		var buf bytes.Buffer
 		sym.Assert(NewEncoder(nil, &buf).Encode(v) == nil, "encode-ok")
 		enc = buf.Bytes()
-		decode = func(r *bytes.Reader) error { var back map[string]uint32; return NewDecoder(nil, r).Decode(&back) }
+		decode = func(r io.Reader) error { var back map[string]uint32; return NewDecoder(nil, r).Decode(&back) }
 		label = "truncated-map"
 	default:
 		v := sym.U64("u")
 		var buf bytes.Buffer
 		sym.Assert(NewEncoder(nil, &buf).Encode(v) == nil, "encode-ok")
 		enc = buf.Bytes()
-		decode = func(r *bytes.Reader) error { var back uint64; return NewDecoder(nil, r).Decode(&back) }
+		decode = func(r io.Reader) error { var back uint64; return NewDecoder(nil, r).Decode(&back) }
 		label = "truncated-scalar"
 	}
 	sym.Assert(decode(bytes.NewReader(enc)) == nil, label+"/full-decodes")
 	k := sym.Concrete(sym.Int("cut", 0, len(enc)-1))
-	sym.Assert(decode(bytes.NewReader(enc[:k])) != nil, label)
+	// the truncated stream either reports EOF on the next call or together with its last bytes
+	var r io.Reader = bytes.NewReader(enc[:k])
+	if sym.Bool("eof-with-data") {
+		r = &zzChunkReader{data: enc[:k], chunk: 1 << 20, eofWithData: true}
+	}
+	sym.Assert(decode(r) != nil, label)
 	sym.Reach("cut-checked")
 }
 
